@@ -79,6 +79,11 @@ CHECKS = {
             'of the length modulo the route timeframes, a fill at every minute offset of a window, one and two symbols, warm-up injection and both simulators for timeframe pairs up to 15m, and every supported '
             'timeframe up to 4h (quick) / 1D (thorough) as trading and as data route. The helpers generate_candle_from_one_minutes, _get_generated_candles and inject_warmup_candles_to_store are enumerated for all 17 timeframes.',
             'Session starts and warm-up lengths are aligned to every route timeframe (lcm), as the property assumes.', 'DESIGN.md 3/C07'),
+    'C06': ('session', 'exhaustive enumeration of sessions (all candle words x program menu x fee x leverage x spot/futures x simulator) with a reference position automaton replaying the fills of the trace',
+            'Programs cover multi-point entries, partial take-profits with a full-size stop, stops resized or moved to break-even after reductions, liquidate(), a forced flip and a position still open '
+            'at session end; for every session the fills of the trace are replayed through a reference automaton and the hook sequence (open, increases/reductions, close - each once), the position size seen '
+            'in each hook, every closed trade (side, quantity, quantity-weighted entry and exit, times, order list), the identity sum(trade PnL) == wallet change and net_profit == finishing - starting balance are compared.',
+            'Word length 4 over 6 shapes (quick) / 5 over 8 (thorough); spot sessions use fee 0 so fixed-size exit ladders equal the holding.', 'DESIGN.md 3/C06'),
 }
 
 NOT_APPLICABLE = {}
